@@ -433,6 +433,7 @@ func emitC11Doc(out *Out, r *Rng) {
 		}
 		out.Emit(Case{Op: "ctx.paths", In: J{"schema": sj, "doc": dj, "path": pj, "type": rootType, "array": lp.viaArr}, Impl: res, Prop: propOf(why), Tags: tags, NT: len(lp.dotted) > 1})
 	}
+	emitC11Histories(out, r, root, doc, ctxBytes, rootType, mz, opts, hs, keys, lps)
 	// the type identifier
 	var why []string
 	tid, terr := opts.TypeIDFromContext(ctxBytes, rootType)
@@ -457,6 +458,240 @@ func emitC11Doc(out *Out, r *Rng) {
 		impl = J{"ok": tid}
 	}
 	out.Emit(Case{Op: "ctx.typeid", In: J{"schema": sj, "type": rootType}, Impl: impl, Prop: propOf(why), Tags: []string{"typeid"}, NT: true})
+}
+
+// ---------- paths the caller assembles ----------
+
+// c11Cuts: the positions of a dotted path at which a nested node begins (after the property and, for a multi-valued
+// property, its position), each with the type the context defines for that node: the rest of the path can be resolved from
+// the context alone as a field path of that type - the way a field of a credential subject is.
+func c11Cuts(root *ANode, dotted []string) (cuts []int, types []*TypeDef) {
+	n := root
+	for i := 0; i < len(dotted) && n != nil; {
+		var fld *AField
+		for k := range n.Fields {
+			if n.Fields[k].Term.Name == dotted[i] {
+				fld = &n.Fields[k]
+				break
+			}
+		}
+		if fld == nil {
+			return
+		}
+		i++
+		idx := 0
+		if len(fld.Vals) > 1 {
+			if i >= len(dotted) {
+				return
+			}
+			if _, err := fmt.Sscanf(dotted[i], "%d", &idx); err != nil || idx < 0 || idx >= len(fld.Vals) {
+				return
+			}
+			i++
+		}
+		n = fld.Vals[idx].Node
+		if n != nil && fld.Term.Child != nil && i < len(dotted) {
+			cuts = append(cuts, i)
+			types = append(types, fld.Term.Child)
+		}
+	}
+	return
+}
+
+func exactCopy(parts []interface{}) []interface{} {
+	c := make([]interface{}, len(parts))
+	copy(c, parts)
+	return c
+}
+
+// emitC11Histories: a path is a value the caller may build in steps - a piece from one of the resolvers or from NewPath,
+// completed with Prepend (the parent's path: "credentialSubject") and Append (a position, a member), and asked for its key,
+// its entry, its proof at any moment in between. However it was put together, a path whose parts are those of the
+// document-side path and of the stored key IS that path: it hashes to the key the field was merklized under, the merklizer
+// finds the entry, reports its datatype and proves it. Histories (start piece, order and size of the completions, what is
+// asked in between) are drawn from the PRNG; one predicate-only case per document.
+func emitC11Histories(out *Out, r *Rng, root *ANode, doc, ctxBytes []byte, rootType string, mz *merklize.Merklizer, opts merklize.Options,
+	hs HSpec, keys map[string]merklize.RDFEntry, lps []leafPath) {
+	var hists []any
+	var why []string
+	grown := 0
+	ps := func(x []interface{}) string { return fmt.Sprintf("%#v", x) }
+	_, rerr := guard(30*time.Second, func() (J, error) {
+		var cand []leafPath
+		for _, lp := range lps {
+			if (lp.lit != nil || lp.ref != "") && !lp.mustFail {
+				cand = append(cand, lp)
+			}
+		}
+		picked := 0
+		for _, ci := range r.Perm(len(cand)) {
+			if picked >= 10 {
+				break
+			}
+			lp := cand[ci]
+			dotted := strings.Join(lp.dotted, ".")
+			rp, err := mz.ResolveDocPath(dotted)
+			if err != nil {
+				continue
+			}
+			e, ok := keys[ps(rp.Parts())]
+			if !ok {
+				continue // (a position the field is not stored under: judged with the path itself, finding F1b)
+			}
+			want, kerr := e.KeyMtEntry()
+			if kerr != nil {
+				continue
+			}
+			picked++
+			T := exactCopy(rp.Parts())
+			m := len(T)
+			cuts, types := c11Cuts(root, lp.dotted)
+			for hn := 0; hn < 2; hn++ {
+				// the start piece
+				kind := []string{"new", "new", "ctx-suffix", "ctx-suffix", "ctx-full", "doc"}[r.Intn(6)]
+				if hn == 0 && len(cuts) > 0 {
+					kind = "ctx-suffix"
+				}
+				o := opts
+				oname := "Options"
+				if r.Bool() {
+					o, oname = mz.Options(), "Merklizer.Options()"
+				}
+				var p merklize.Path
+				i, j := 0, m
+				start := ""
+				switch kind {
+				case "ctx-suffix":
+					if len(cuts) > 0 {
+						c := r.Intn(len(cuts))
+						rest := strings.Join(lp.dotted[cuts[c]:], ".")
+						sfx, serr := o.FieldPathFromContext(ctxBytes, types[c].Name, rest)
+						if n := len(sfx.Parts()); serr == nil && n > 0 && n <= m && ps(sfx.Parts()) == ps(T[m-n:]) {
+							p, i, start = sfx, m-n, fmt.Sprintf("%s.FieldPathFromContext(%s, %s)", oname, types[c].Name, rest)
+						}
+					}
+				case "ctx-full":
+					if fp, ferr := o.FieldPathFromContext(ctxBytes, rootType, dotted); ferr == nil && ps(fp.Parts()) == ps(T) {
+						p, start = fp, fmt.Sprintf("%s.FieldPathFromContext(%s, %s)", oname, rootType, dotted)
+					}
+				case "doc":
+					if r.Bool() {
+						if dp, derr := mz.ResolveDocPath(dotted); derr == nil && ps(dp.Parts()) == ps(T) {
+							p, start = dp, fmt.Sprintf("Merklizer.ResolveDocPath(%s)", dotted)
+						}
+					} else if dp, derr := o.NewPathFromDocument(doc, dotted); derr == nil && ps(dp.Parts()) == ps(T) {
+						p, start = dp, fmt.Sprintf("%s.NewPathFromDocument(%s)", oname, dotted)
+					}
+				}
+				if start == "" {
+					i = r.Intn(m)
+					j = i + 1 + r.Intn(m-i)
+					np, nerr := o.NewPath(exactCopy(T[i:j])...)
+					if nerr != nil {
+						why = append(why, fmt.Sprintf("%s.NewPath(%v): %v", oname, T[i:j], nerr))
+						continue
+					}
+					p, start = np, fmt.Sprintf("%s.NewPath(parts %d..%d of %d)", oname, i, j, m)
+				}
+				ops := []string{start}
+				left, right := T[:i], T[j:]
+				// what the caller asks of the path between two steps; nothing of it may change what the path is
+				observe := func() {
+					for k := r.Intn(3); k > 0; k-- {
+						switch r.Intn(7) {
+						case 0, 1:
+							_, _ = p.MtEntry()
+							ops = append(ops, "key")
+						case 2:
+							q := p
+							_, _ = q.MtEntry()
+							ops = append(ops, "key-of-copy")
+						case 3:
+							_, _ = mz.Entry(p)
+							ops = append(ops, "entry")
+						case 4:
+							_, _ = mz.JSONLDType(p)
+							ops = append(ops, "type")
+						case 5:
+							_, _, _ = mz.Proof(context.Background(), p)
+							ops = append(ops, "proof")
+						default:
+							_ = p.Parts()
+							ops = append(ops, "parts")
+						}
+					}
+				}
+				observe()
+				bad := false
+				for len(left) > 0 || len(right) > 0 {
+					pre := len(left) > 0 && (len(right) == 0 || r.Bool())
+					var gerr error
+					if pre {
+						c := 1 + r.Intn(len(left))
+						chunk := exactCopy(left[len(left)-c:])
+						left = left[:len(left)-c]
+						gerr = p.Prepend(chunk...)
+						ops = append(ops, fmt.Sprintf("prepend %d", c))
+					} else {
+						c := 1 + r.Intn(len(right))
+						chunk := exactCopy(right[:c])
+						right = right[c:]
+						gerr = p.Append(chunk...)
+						ops = append(ops, fmt.Sprintf("append %d", c))
+					}
+					if gerr != nil {
+						why = append(why, fmt.Sprintf("%s, history %v: %v", dotted, ops, gerr))
+						bad = true
+						break
+					}
+					observe()
+				}
+				if len(ops) > 1 {
+					for _, op := range ops[1:] {
+						if strings.HasPrefix(op, "prepend") || strings.HasPrefix(op, "append") {
+							grown++
+							break
+						}
+					}
+				}
+				hists = append(hists, J{"path": dotted, "ops": ops})
+				if bad {
+					continue
+				}
+				hist := strings.Join(ops, ", ")
+				if ps(p.Parts()) != ps(T) {
+					why = append(why, fmt.Sprintf("the path for %s assembled as [%s] has the parts %v, the pieces put together are %v", dotted, hist, p.Parts(), T))
+					continue
+				}
+				got, gerr := p.MtEntry()
+				if gerr != nil || got == nil || got.Cmp(want) != 0 {
+					why = append(why, fmt.Sprintf("the path for %s assembled as [%s] has the parts of the document-side path and of the stored key, %v, but hashes to %v (%v); the field is merklized under %v (hasher %s)",
+						dotted, hist, p.Parts(), got, gerr, want, hs.Name))
+					continue
+				}
+				if fe, eerr := mz.Entry(p); eerr != nil {
+					why = append(why, fmt.Sprintf("the merklizer does not find the entry of %s with the path assembled as [%s]: %v", dotted, hist, eerr))
+				} else if ps(fe.VerifKeyParts()) != ps(T) {
+					why = append(why, fmt.Sprintf("with the path for %s assembled as [%s] the merklizer finds the entry stored under %v", dotted, hist, fe.VerifKeyParts()))
+				}
+				if dt, terr := mz.JSONLDType(p); terr != nil || dt != e.VerifDatatype() {
+					why = append(why, fmt.Sprintf("JSONLDType of %s with the path assembled as [%s] is %q (%v), the entry records %q", dotted, hist, dt, terr, e.VerifDatatype()))
+				}
+				if pr, _, perr := mz.Proof(context.Background(), p); perr != nil || pr == nil || !pr.Existence {
+					why = append(why, fmt.Sprintf("the proof for %s with the path assembled as [%s] is not an existence proof (%v)", dotted, hist, perr))
+				}
+			}
+		}
+		return nil, nil
+	})
+	if rerr != nil {
+		why = append(why, "path history "+errClass(rerr)+": "+rerr.Error())
+	}
+	if len(hists) == 0 && len(why) == 0 {
+		return
+	}
+	out.Emit(Case{Op: "none", In: J{"doc": string(doc), "hasher": hs.Name, "type": rootType, "histories": hists}, Impl: J{"histories": len(hists), "completed": grown},
+		Prop: propOf(why), Tags: []string{"path-history"}, NT: grown > 0})
 }
 
 // hand-written shapes of the known divergences
